@@ -306,6 +306,65 @@ where
         }
         return vec![];
     }
+    let out = spawn_and_merge(ctx, ev, cfg);
+    ev.rules.push(format!("[{}] {}", cfg.name, cfg.rule));
+    out
+}
+
+/// Exhaustive enumeration of `n_items` indexed cases spread over worker processes (index i goes to
+/// worker i mod W). `check_idx` returns the CheckResult and a description of the case for replays.
+pub fn explore_indexed<F>(ctx: &Ctx, ev: &mut Evidence, name: &'static str, rule: &str, n_items: u64, check_idx: F) -> Vec<Found>
+where
+    F: Fn(u64) -> (CheckResult, Value) + Sync,
+{
+    if let Some((part, k, n, outfile, stopfile)) = worker_env() {
+        if part == name {
+            let known: Vec<String> = load_known_findings(&ctx.id).into_iter().map(|k| k.sig).collect();
+            let mut out = WorkerOut::default();
+            let mut nontrivial = HashSet::new();
+            let mut i = k as u64;
+            while i < n_items {
+                if stopfile.exists() {
+                    break;
+                }
+                let (r, desc) = check_idx(i);
+                match r {
+                    Ok(info) => {
+                        out.evaluations += info.weight.max(1);
+                        if info.nontrivial {
+                            nontrivial.insert(i);
+                            if out.samples.is_empty() {
+                                out.samples.push(desc);
+                            }
+                        }
+                        for c in &info.classes {
+                            *out.classes.entry(c.clone()).or_insert(0) += 1;
+                        }
+                    }
+                    Err(f) => {
+                        if known.contains(&f.sig) {
+                            *out.known_hits.entry(f.sig).or_insert(0) += 1;
+                        } else {
+                            out.found.push((name.to_string(), f.sig, f.detail, json!({"index": i, "desc": desc})));
+                            let _ = std::fs::write(&stopfile, b"stop");
+                            break;
+                        }
+                    }
+                }
+                i += n as u64;
+            }
+            out.nontrivial = nontrivial.into_iter().collect();
+            std::fs::write(&outfile, serde_json::to_string(&out).unwrap()).expect("write worker result");
+        }
+        return vec![];
+    }
+    let cfg = PartCfg { name, rule: "", cases: n_items, max_shrink_iters: 0 };
+    let found = spawn_and_merge(ctx, ev, &cfg);
+    ev.rules.push(format!("[{}] {}", name, rule));
+    found
+}
+
+fn spawn_and_merge(ctx: &Ctx, ev: &mut Evidence, cfg: &PartCfg) -> Vec<Found> {
     let workers = ctx.threads.max(1).min(cfg.cases.max(1) as usize);
     let dir = crate::driver::scratch_root();
     let _ = std::fs::create_dir_all(&dir);
@@ -365,7 +424,6 @@ where
             }
         }
     }
-    ev.rules.push(format!("[{}] {}", cfg.name, cfg.rule));
     out
 }
 
